@@ -50,7 +50,7 @@ def run(chk, replay=None):
         'memory safety, undefined behaviour and uncaught exceptions are observed on generated hostile inputs (under ASan + UBSan at the thorough tier), not proved; the theorems cover the logic the crashes of this code base came from: '
         'termination of the guarded recursion over unit references, guarded numeric conversions (C16), termination of import resolution (C07), of the analyser loop (C05) and of the fresh-name search (C06)',
         'inputs are at most 64 KiB: generated CellML 2.0 documents and analysable systems (a share rewritten to CellML 1.0 / 1.1) with one to three structured mutations (hostile numbers and names, cyclic and self-referencing units, deep encapsulation and MathML, '
-        'swapped namespaces, renamed / duplicated / misplaced elements, damaged MathML, entity expansion, self-imports) and byte-level damage, plus a fixed list of minimal inputs; each with the strict and the permissive parser',
+        'swapped namespaces, renamed / duplicated / misplaced elements, damaged MathML, entity expansion, self-imports, entity references / CDATA sections / processing instructions between tags, non-equation children of math) and byte-level damage, plus a fixed list of minimal inputs (operators with missing operands, odd nodes, malformed math strings); each with the strict and the permissive parser; math strings are also handed to the object model through the API (Component::setMath, Reset::setTestValue / setResetValue)',
         'a stage that does not return within the timeout counts as a hang',
         'libxml2 is part of the pipeline as linked; its own limits (nesting depth, entity expansion) are relied on']
     chk.cov['trusted_base'] += ['harness/hx_pipeline.cpp + lean/Cellml/Engine/Crash.lean', 'pygen/hostile.py, docs.py, models.py, legacy.py (inputs)', 'ASan / UBSan (thorough tier), the kernel\'s signals']
@@ -89,7 +89,10 @@ def run(chk, replay=None):
             if r.get('input_hex') is not None:
                 inputs = [(bytes.fromhex(r['input_hex']), r.get('what', 'replay'))]
         else:
-            inputs = list(H.FIXED)
+            inputs = list(H.FIXED) + [(t.encode(), 'math string: ' + t[:30]) for t in (
+                '', 'not xml', '<math', '<math xmlns="http://www.w3.org/1998/Math/MathML">&foo;</math>', '<a/><b', '<math xmlns="http://www.w3.org/1998/Math/MathML"><apply><eq/><ci>x</ci></math>',
+                '<math xmlns="http://www.w3.org/1998/Math/MathML"><ci>x</ci></math>', '<math xmlns="http://www.w3.org/1998/Math/MathML"/><math xmlns="http://www.w3.org/1998/Math/MathML"><apply/></math>',
+                '<?xml version="1.0"?><math xmlns="http://www.w3.org/1998/Math/MathML"><apply><eq/><ci>x</ci><cn>1</cn></apply></math>', '<root><math xmlns="http://www.w3.org/1998/Math/MathML"/></root>', '<![CDATA[x]]>', '&amp;')]
             nin = 150 if chk.tier == 'quick' else 1500
             while len(inputs) < nin:
                 inputs.append(gen_input(rng))
@@ -97,7 +100,13 @@ def run(chk, replay=None):
         for data, what in inputs:
             for w in what.split('; '):
                 kinds[w.split(' ')[0] + ' ' + (w.split(' ')[1] if ' ' in w else '')] += 1
-            for mode in ('strict', 'permissive'):
+            modes = ('strict', 'permissive')
+            if what.startswith('math string') or (not replay and b'<math' in data and rng.random() < 0.15):
+                # the math of the document (or the fixed string) handed over through the API instead of the parser
+                mm = re.search(rb'<math.*?</math>|<math.*', data, re.S)
+                modes = ('mathapi',)
+                data = data if what.startswith('math string') else (mm.group(0) if mm else data)
+            for mode in modes:
                 rc, o, e = run_one(hx, wd, base, data, mode, 120 if san else 60)
                 stats['runs'] += 1
                 st = [l for l in o.split('\n') if l.startswith('stage ')]
